@@ -36,6 +36,13 @@ class Infra(Exception):
     """Infrastructure failure (compiler, TLC parse error, timeout): exit 2."""
 
 
+class DriverCrash(Infra):
+    """A harness binary was killed by a signal / abort while driving the library outside a code path that records the
+    crash itself.  On the unchanged tree this does not happen; bin/check reports it as a violation (the replay file holds
+    the command and its output), not as an infrastructure failure."""
+
+
+
 def log(*a):
     print(*a, file=sys.stderr, flush=True)
 
@@ -322,9 +329,31 @@ def run(cmd, timeout=1100, env=None, cwd=None, ok_codes=(0,)):
     except subprocess.TimeoutExpired:
         raise Infra("timeout (%ss): %s" % (timeout, " ".join(cmd)[:300]))
     if p.returncode not in ok_codes:
-        raise Infra("rc=%d: %s\n%s\n%s" % (p.returncode, " ".join(cmd)[:300], p.stdout.decode(errors="replace")[-3000:],
-                                          p.stderr.decode(errors="replace")[-3000:]))
+        msg = "rc=%d: %s\n%s\n%s" % (p.returncode, " ".join(cmd)[:300], p.stdout.decode(errors="replace")[-3000:],
+                                     p.stderr.decode(errors="replace")[-3000:])
+        if (p.returncode < 0 or p.returncode in (134, 136, 139)) and os.path.join("build", "bin") in str(cmd[0]):
+            raise DriverCrash(msg)   # a harness binary killed by a signal: the library took its driver down
+        raise Infra(msg)
     return p
+
+
+def run_recorder(cmd, timeout=1100, env=None, cwd=None):
+    """Run a program that drives the library and records what it does.  A recorder killed by the library (assertion,
+    signal, uncaught exception, sanitizer) is not an infrastructure failure: returns (process, None) on a clean exit and
+    (process, deviation-dict) otherwise; what was recorded up to that point is still validated."""
+    e = dict(os.environ)
+    if env:
+        e.update(env)
+    try:
+        p = subprocess.run(cmd, capture_output=True, timeout=timeout, env=e, cwd=cwd)
+    except subprocess.TimeoutExpired:
+        raise Infra("timeout (%ss): %s" % (timeout, " ".join(cmd)[:300]))
+    if p.returncode == 0:
+        return p, None
+    if p.returncode == 2:   # usage / setup errors of the harness itself
+        raise Infra("rc=2: %s\n%s" % (" ".join(cmd)[:300], p.stderr.decode(errors="replace")[-3000:]))
+    return p, {"kind": "recorder_crash", "rc": p.returncode, "cmd": " ".join(os.path.basename(x) for x in cmd)[:200],
+               "output": (p.stdout.decode(errors="replace") + p.stderr.decode(errors="replace"))[-1500:]}
 
 
 def run_parallel(cmds, par=None, timeout=1100, env=None, ok_codes=(0,)):
